@@ -732,11 +732,40 @@ func (c *Ctx) gxRun() []*gxFamVerdict {
 					}
 				}
 			}
+			// texts whose lexemes cannot be read off by splitting at spaces: source → reference lexemes.
+			// Quoted identifiers are identifiers whatever they spell; a character that is no operator is an
+			// unknown symbol wherever it stands, white space of other scripts included.
+			textRef := map[string]string{
+				`"or" + 1`:       "Word~or + 1",
+				`a OR "or"`:      "a OR Word~or",
+				`"true" + 1`:     "Word~true + 1",
+				`"NOT" + 1`:      "Word~NOT + 1",
+				`"in" IN "null"`: "Word~in IN Word~null",
+				`f ( "And" )`:    "f ( Word~And )",
+				"1 + 2\u00a0":    "1 + 2 Symbol~\u00a0",
+				"\u00a01 + 2":    "Symbol~\u00a0 1 + 2",
+				"1 +\u00a02":     "1 + Symbol~\u00a0 2",
+				"1\u2003":        "1 Symbol~\u2003",
+				"\u3000a":        "Symbol~\u3000 a",
+				"a + b\u0085":    "a + b Symbol~\u0085",
+				"\u00a0":         "Symbol~\u00a0",
+				"a \t\r\n":       "a",
+				"\t\n a":         "a",
+			}
+			var extra []string
+			for src := range textRef {
+				extra = append(extra, src)
+			}
+			sort.Strings(extra)
+			exprs = append(exprs, extra...)
 			for _, e := range exprs {
-				if strings.TrimSpace(e) == "" || strings.Contains(e, "Unknown") || strings.Contains(e, "Eof") || strings.Contains(e, "Special") || strings.Contains(e, "Eol") {
+				if strings.TrimSpace(e) == "" && textRef[e] == "" || strings.Contains(e, "Unknown") || strings.Contains(e, "Eof") || strings.Contains(e, "Special") || strings.Contains(e, "Eol") {
 					continue
 				}
 				ls := lexemes(e)
+				if ref, ok := textRef[e]; ok {
+					ls = lexemes(ref)
+				}
 				if onlyBlank(ls) {
 					continue // the empty input is outside the statement
 				}
